@@ -126,6 +126,7 @@ Proof.
   - apply (BS_kinds rules env F rank None None su su1 HS); auto.
     + intros k' Hks. rewrite Hba. destruct (N.eqb k' k) eqn:E; auto. apply N.eqb_eq in E. subst k'. congruence.
     + intros rq [H|[(k0 & H)|(t0 & z & Hz & H)]]; left; [left; congruence|right; left; exists k0; now rewrite <- (proj1 (proj2 (HL k0)))|right; right; exists t0, z; now rewrite <- Htask].
+    + intros rq [H|[(k0 & H)|(t0 & z & Hz & H)]]; left; [left; congruence|right; left; exists k0; now rewrite <- (proj1 (proj2 (HL k0)))|right; right; exists t0, z; now rewrite <- Htask].
     + intros k' Hk'. destruct (Hne k' (or_introl Hk')) as [E Hkk]. left. rewrite <- Hkk. split; auto. destruct (HL k') as (-> & -> & _). auto.
     + intros k' Hk'. destruct (Hne k' (or_intror Hk')) as [E Hkk]. left. rewrite <- Hkk. split; auto. rewrite Hba. apply N.eqb_neq in E. rewrite E. split; auto.
       intros [(rq & H1 & H2)|(rq & H1 & H2)]; [left; exists rq; now rewrite Hts|right; exists rq; now rewrite Hi].
@@ -538,6 +539,7 @@ Proof.
     + intros k. left. split; auto. intros H. now apply Hcu.
   - apply (BS_kinds rules env F rank None None su s' HS); auto.
     + intros k H. now apply Hcu.
+    + intros y [H|[(k & H)|(t0 & z & Hz & H)]]; left; [left; congruence|right; left; exists k; now rewrite <- RI|right; right; exists t0, z; now rewrite <- Htask].
     + intros y [H|[(k & H)|(t0 & z & Hz & H)]]; left; [left; congruence|right; left; exists k; now rewrite <- RI|right; right; exists t0, z; now rewrite <- Htask].
     + intros k. rewrite HK. intros Hk. left. split; auto. now rewrite RI.
     + intros k. rewrite HK. intros Hk. left. split; auto. split; auto.
